@@ -26,7 +26,7 @@ RULE = (
     '@import; distinct_nontrivial = distinct (owner, model state, operation, outcome) tuples reached'
 )
 ASSUMPTIONS = ['"handheld" special-casing mentioned in a docstring is not asserted either way', 'feature values outside the documented set are not generated']
-MIN_EVENTS = {'quick': {'oracle.step': 25000, 'oracle.query-construction': 3000, 'oracle.malformed-rejected': 400, 'rejections': 1500},
+MIN_EVENTS = {'quick': {'oracle.step': 20000, 'oracle.query-construction': 3000, 'oracle.malformed-rejected': 400, 'rejections': 1500},
               'thorough': {'oracle.step': 600000, 'oracle.query-construction': 80000, 'oracle.malformed-rejected': 10000, 'rejections': 40000}}
 
 TYPES = G.MEDIA_TYPES
